@@ -38,8 +38,10 @@ int fb_gen_common_c_builder_header(fb_output_t *out)
         "do { flatcc_builder_ref_t _ref; if ((_ref = flatcc_builder_refmap_find((B), (src)))) return _ref; } while (0)\n"
         "#define __%smemoize_end(B, src, op) do { return flatcc_builder_refmap_insert((B), (src), (op)); } while (0)\n"
         "#define __%smemoize(B, src, op) do { __%smemoize_begin(B, src); __%smemoize_end(B, src, op); } while (0)\n"
+        "/* Strings and vectors are memoized by their header: the first element of an empty vector is the start of the next object. */\n"
+        "#define __%smemoize_key(vec) ((const void *)((const char *)(vec) - sizeof(%suoffset_t)))\n"
         "\n",
-        nsc, nsc, nsc, nsc, nsc);
+        nsc, nsc, nsc, nsc, nsc, nsc, nsc);
 
     fprintf(out->fp,
         "#define __%sbuild_buffer(NS)\\\n"
@@ -252,7 +254,7 @@ int fb_gen_common_c_builder_header(fb_output_t *out)
         "  for (i = 0; i < len; ++i) { N ## _copy_to_pe(N ## __ptr_add(p, i), N ## __const_ptr_add(data, i)); }\\\n"
         "  return flatcc_builder_end_vector(B); } else return flatcc_builder_create_vector(B, data, len, S, A, FLATBUFFERS_COUNT_MAX(S)); }\\\n"
         "static inline N ## _vec_ref_t N ## _vec_clone(NS ## builder_t *B, N ##_vec_t vec)\\\n"
-        "{ __%smemoize(B, vec, flatcc_builder_create_vector(B, vec, N ## _vec_len(vec), S, A, FLATBUFFERS_COUNT_MAX(S))); }\\\n"
+        "{ __%smemoize(B, __ ## NS ## memoize_key(vec), flatcc_builder_create_vector(B, vec, N ## _vec_len(vec), S, A, FLATBUFFERS_COUNT_MAX(S))); }\\\n"
         "static inline N ## _vec_ref_t N ## _vec_slice(NS ## builder_t *B, N ##_vec_t vec, size_t index, size_t len)\\\n"
         "{ size_t n = N ## _vec_len(vec); if (index >= n) index = n; n -= index; if (len > n) len = n;\\\n"
         "  return flatcc_builder_create_vector(B, N ## __const_ptr_add(vec, index), len, S, A, FLATBUFFERS_COUNT_MAX(S)); }\\\n"
@@ -292,14 +294,14 @@ int fb_gen_common_c_builder_header(fb_output_t *out)
         "static inline N ## _union_vec_ref_t N ## _vec_clone(NS ## builder_t *B, N ##_union_vec_t vec)\\\n"
         "{ N ## _union_vec_ref_t _uvref, _ret = { 0, 0 }; NS ## union_ref_t _uref; size_t _i, _len;\\\n"
         "  if (vec.type == 0) return _ret;\\\n"
-        "  _uvref.type = flatcc_builder_refmap_find(B, vec.type); _uvref.value = flatcc_builder_refmap_find(B, vec.value);\\\n"
+        "  _uvref.type = flatcc_builder_refmap_find(B, __ ## NS ## memoize_key(vec.type)); _uvref.value = flatcc_builder_refmap_find(B, __ ## NS ## memoize_key(vec.value));\\\n"
         "  _len = N ## _union_vec_len(vec); if (_uvref.type == 0) {\\\n"
-        "  _uvref.type = flatcc_builder_refmap_insert(B, vec.type, (flatcc_builder_create_type_vector(B, vec.type, _len))); }\\\n"
+        "  _uvref.type = flatcc_builder_refmap_insert(B, __ ## NS ## memoize_key(vec.type), (flatcc_builder_create_type_vector(B, vec.type, _len))); }\\\n"
         "  if (_uvref.type == 0) return _ret; if (_uvref.value == 0) {\\\n"
         "  if (flatcc_builder_start_offset_vector(B)) return _ret;\\\n"
         "  for (_i = 0; _i < _len; ++_i) { _uref = N ## _clone(B, N ## _union_vec_at(vec, _i));\\\n"
-        "    if (!_uref.value || !(flatcc_builder_offset_vector_push(B, _uref.value))) return _ret; }\\\n"
-        "  _uvref.value = flatcc_builder_refmap_insert(B, vec.value, flatcc_builder_end_offset_vector(B));\\\n"
+        "    if ((!_uref.value && N ## _union_vec_at(vec, _i).type != 0) || !(flatcc_builder_offset_vector_push(B, _uref.value))) return _ret; }\\\n"
+        "  _uvref.value = flatcc_builder_refmap_insert(B, __ ## NS ## memoize_key(vec.value), flatcc_builder_end_offset_vector_for_unions(B, vec.type));\\\n"
         "  if (_uvref.value == 0) return _ret; } return _uvref; }\n"
         "\n",
         nsc, nsc);
@@ -364,11 +366,11 @@ int fb_gen_common_c_builder_header(fb_output_t *out)
         "{ return flatcc_builder_create_offset_vector(B, data, len); }\\\n"
         "__%sbuild_offset_vector_ops(NS, N ## _vec, N, N)\\\n"
         "static inline N ## _vec_ref_t N ## _vec_clone(NS ## builder_t *B, N ##_vec_t vec)\\\n"
-        "{ int _ret; N ## _ref_t _e; size_t _i, _len; __%smemoize_begin(B, vec);\\\n"
+        "{ int _ret; N ## _ref_t _e; size_t _i, _len; __%smemoize_begin(B, __ ## NS ## memoize_key(vec));\\\n"
         " _len = N ## _vec_len(vec); if (flatcc_builder_start_offset_vector(B)) return 0;\\\n"
         "  for (_i = 0; _i < _len; ++_i) { if (!(_e = N ## _clone(B, N ## _vec_at(vec, _i)))) return 0;\\\n"
         "    if (!flatcc_builder_offset_vector_push(B, _e)) return 0; }\\\n"
-        "  __%smemoize_end(B, vec, flatcc_builder_end_offset_vector(B)); }\\\n"
+        "  __%smemoize_end(B, __ ## NS ## memoize_key(vec), flatcc_builder_end_offset_vector(B)); }\\\n"
         "\n",
         nsc, nsc, nsc, nsc);
 
@@ -405,7 +407,7 @@ int fb_gen_common_c_builder_header(fb_output_t *out)
         "static inline NS ## ref_t NS ## string_create_strn(NS ## builder_t *B, const char *s, size_t len)\\\n"
         "{ return flatcc_builder_create_string_strn(B, s, len); }\\\n"
         "static inline NS ## string_ref_t NS ## string_clone(NS ## builder_t *B, NS ## string_t string)\\\n"
-        "{ __%smemoize(B, string, flatcc_builder_create_string(B, string, NS ## string_len(string))); }\\\n"
+        "{ __%smemoize(B, __ ## NS ## memoize_key(string), flatcc_builder_create_string(B, string, NS ## string_len(string))); }\\\n"
         "static inline NS ## string_ref_t NS ## string_slice(NS ## builder_t *B, NS ## string_t string, size_t index, size_t len)\\\n"
         "{ size_t n = NS ## string_len(string); if (index >= n) index = n; n -= index; if (len > n) len = n;\\\n"
         "  return flatcc_builder_create_string(B, string + index, len); }\\\n"
@@ -2027,8 +2029,8 @@ static int gen_union_clone(fb_output_t *out, fb_compound_type_t *ct)
         case vt_string_type:
             symbol_name(sym, &n, &s);
             fprintf(out->fp,
-                "    case %u: return %s_as_%.*s(%sstring_clone(B, u.value));\n",
-                (unsigned)member->value.u, snt.text, n, s, nsc);
+                "    case %u: return %s_as_%.*s(%sstring_clone(B, %sstring_cast_from_generic(u.value)));\n",
+                (unsigned)member->value.u, snt.text, n, s, nsc, nsc);
             break;
         case vt_missing:
             break;
